@@ -124,3 +124,30 @@ _m("C03",
    "mapping (runtime facts); that writers cannot be used after publication is decided under C14 (e).",
    "effect inventory with provenance expansion (who-may-write) + gate-cut reachability / result-state ties on the close paths",
    "exhaustive static analysis (necessary conditions of crash atomicity; the crash quantifier itself is out of static reach)")
+
+_m("C09",
+   "For every public removal entry point (remove*, index::delete*, remove_hash*, RemoveOpts::remove*, clear*) the set of "
+   "mutating filesystem effects reachable through the call graph — with each effect's path expanded to that entry point's own "
+   "parameters — is bounded above and below by the documented set: key removal = append of a None-integrity tombstone to "
+   "Bucket(cache, key) (+ creating its parent directories), nothing else; content removal = RemoveFile(Content(cache, sri)), "
+   "nothing else; RemoveOpts = the tombstone set under remove_fully==false and exactly RemoveFile(Content(cache, "
+   "lookup(cache,key).integrity)) + RemoveFile(Bucket(cache,key)) under remove_fully==true (arms separated by the flag's "
+   "switch); clear = RemoveDirAll(Child(read_dir(cache))) inside a loop whose only non-error exit is the iterator's end. "
+   "The key / integrity selecting the bucket / content address is the entry point's own parameter travelling by identity.",
+   "Effects on other keys that share the same content file (a semantic question about data sharing); SHA-1 bucket "
+   "collisions; outcomes for keys never written; what the lookups return afterwards (C05).",
+   "parametric effect summaries instantiated at the public removal entry points (upper and lower bounds)",
+   "exhaustive static analysis of the effect set of each removal entry point in every configuration (necessary conditions)")
+
+_m("C07",
+   "Four structural necessary conditions of lock-free serialisability, NOT the schedule-quantified behaviour: (a) an index "
+   "record reaches the file through exactly one write_all of one self-delimiting, checksummed buffer on a descriptor opened "
+   "append+create (no write/truncate flags), outside any loop; (b) content becomes visible only by rename (persist) of a temp "
+   "file uniquely created by new_in({cache}/tmp) of the same cache, or symlink — never by in-place writing or copying; "
+   "(c) every directory creation is create_dir_all / DirBuilder.recursive(true), i.e. tolerant of concurrent creation; "
+   "(d) the crate has no `static mut`, no thread-local and no non-Freeze static other than plain atomic scalars, so no "
+   "in-process memo of index or integrity state can exist and every operation communicates through the filesystem only.",
+   "Linearisability over interleavings of system calls; kernel guarantees for O_APPEND and rename; what a reader racing a "
+   "remove_hash observes; lost updates between independent processes — none of this is decided by any static check here.",
+   "effect-inventory constraints + item facts (statics) ; clauses (a),(b) reuse the C04/C03 analyses",
+   "static analysis of necessary conditions only; the schedule quantifier is out of reach of this technique family")
